@@ -12,6 +12,15 @@ CLAIMS = {
                 'coefficient tables agree with their exact definitions to 1 ulp.',
         not_decided='order of accuracy beyond consistency and symmetry, adaptive step control, user ODE coupling, error constants (runtime numerics)',
         design_ref='3/C01'),
+    'C02': dict(
+        module='c02', level='other',
+        technique='component isomorphism (tree renaming + polynomial identity), pair-loop extraction with let-inlining into sympy identities, sibling loop comparison',
+        decided='the gravity dispatch is exhaustive; every x/y/z statement triple of the force loops, ghost-box shifts, tree walk and WH/EOS interaction '
+                'steps is one formula under an axis permutation; in every pair loop all per-particle subscripts are one of the two pair indices; where both bodies '
+                'are updated m_A*dA + m_B*dB = 0 as a polynomial identity; the MERCURIUS halves are weighted by L and (1-L) of the same full-strength force with the '
+                'changeover distance max(dcrit[A],dcrit[B]) and range over the same pair classes; the TRACE halves are masked by K and !K over the same matrix entry and pair classes.',
+        not_decided='numeric equality with the Newtonian sum, loop-domain equality with the mathematical pair set, tree multipole bound, compensated-summation accuracy',
+        design_ref='3/C02'),
     'C05': dict(
         module='c05', level='other',
         technique='table/layout agreement (descriptor table folded from LLVM IR vs clang record layout) + typestate walk of header/payload byte accounting in writer and reader',
